@@ -16,7 +16,7 @@ PROP = dict(
          "parentheses, brackets, blocks, ifs, lambdas, matches, unary operators, type arguments, tuple patterns, calls, member "
          "chains, unclosed openers, stray closers) and 21 long texts (100/500-term operator chains, 500 functions, 20 kB "
          "identifier and non-ASCII string, 50 kB comment, 400-digit numbers, unterminated string and comment). Per text, in a "
-         "child process: check, compile_bytecode, check_lsp+errors() each under catch_unwind (panic, abort or 60 s hang = "
+         "child process: check, compile_bytecode, check_lsp+errors() each under catch_unwind (panic, abort, or no answer after 300 s of own CPU time when re-run alone = "
          "failing input, one per panic site, shrunk to the shortest failing prefix), accept/reject agreement of the three entry "
          "points, and one model case: verif_lex (tokens with byte spans, lexer diagnostics) = Lean tokenizeBytes. "
          "distinct = distinct texts; non-trivial = the text lexes with a diagnostic or has non-ASCII bytes or more than 20 tokens",
